@@ -66,8 +66,25 @@ def main():
             out.append('### %s\n\n(no separate part)\n' % p)
     out.append(seeded_table())
     out.append(read('_tail.md'))
+    text = '\n'.join(out)
+    # numbers taken from the files they summarise
+    kf = json.load(open(os.path.join(VERIF, 'known_findings.json'), encoding='utf-8'))['findings']
+    commits = sorted(set(e['commit'] for e in kf if e.get('status') == 'fixed'))
+    known = [e for e in kf if e.get('status') == 'known']
+    metas = []
+    for d in sorted(os.listdir(os.path.join(VERIF, 'seeded'))):
+        mp = os.path.join(VERIF, 'seeded', d, 'meta.json')
+        if os.path.exists(mp):
+            metas.append(json.load(open(mp, encoding='utf-8')))
+    strengthened = [m for m in metas if 'after strengthening' in (m.get('status') or '')]
+    known_list = '\n'.join('  * `%s` (%s): %s Witness: `%s`' % (e['signature'], e['property'], e['what'], e.get('witness', ''))
+                           for e in known) or '  * none'
+    for k, v in {'FIX_COUNT': str(len(commits)), 'KNOWN_LIST': known_list, 'N_SEEDS': str(len(metas)),
+                 'N_STRENGTHENED': str(len(strengthened)), 'N_KNOWN': str(len(known)),
+                 'N_FIX_COMMITS': str(len(commits))}.items():
+        text = text.replace(k, v)
     with open(os.path.join(VERIF, 'DESIGN.md'), 'w', encoding='utf-8') as f:
-        f.write('\n'.join(out))
+        f.write(text)
     print('DESIGN.md: %d lines' % sum(x.count('\n') + 1 for x in out))
 
 
